@@ -18,7 +18,7 @@ def showEv : Ev → String
   | .accept => "accept" | .routes => "routes" | .fw l => showFw l | .fwFlush => "fwflush"
   | .fwReadline => "fwreadline" | .fwPoll => "fwpoll" | .started => "started" | .ready => "ready"
   | .rc0 => "rc0" | .close => "close" | .wait => "wait" | .stop => "stop" | .cleanup => "cleanup"
-  | .hsOk => "hsok"
+  | .hsOk _ => "hsok" | .sshDead => "sshdead"
 
 def parseEv (s : String) : Option Ev :=
   let fixed : List (String × Ev) :=
@@ -29,7 +29,7 @@ def parseEv (s : String) : Option Ev :=
      ("fwPORTS", .fw .ports), ("fwGO", .fw .go), ("fwHOST", .fw .host), ("fwflush", .fwFlush),
      ("fwreadline", .fwReadline), ("fwpoll", .fwPoll), ("started", .started), ("ready", .ready),
      ("rc0", .rc0), ("close", .close), ("wait", .wait), ("stop", .stop), ("cleanup", .cleanup),
-     ("hsok", .hsOk)]
+     ("hsok", .hsOk Handshake.expected), ("sshdead", .sshDead)]
   match fixed.lookup s with
   | some e => some e
   | none =>
@@ -96,7 +96,7 @@ def step (_ : Unit) (line : String) : Unit × List String :=
     | none => ((), ["bad-op"])
     | some sc =>
       let (r, w) := run sc
-      let evs := (w.trace.filter (· != Ev.hsOk)).map showEv
+      let evs := (w.trace.filter fun e => match e with | .hsOk _ => false | .sshDead => false | _ => true).map showEv
       let out := match r with
         | .ok _ => "ret"
         | .error x => "exc=" ++ showExc x
